@@ -47,6 +47,7 @@ type instantReader struct {
 	seed uint64
 	at   int64
 	cnt  map[int]uint32
+	short map[int]uint32
 }
 
 func (s *instantReader) Read(b []byte) (int, error) {
@@ -57,6 +58,15 @@ func (s *instantReader) Read(b []byte) (int, error) {
 	}
 	s.cnt[len(b)]++
 	k := s.cnt[len(b)]
+	if len(b) <= 2 {
+		// short reads are choices among a handful of candidates (the sync peer): their sequence is what matters,
+		// not the instant at which a timer happens to trigger them
+		if s.short == nil {
+			s.short = map[int]uint32{}
+		}
+		s.short[len(b)]++
+		k, now = s.short[len(b)], 0
+	}
 	s.mu.Unlock()
 	var in [28]byte
 	binary.LittleEndian.PutUint64(in[0:], s.seed)
